@@ -5,6 +5,7 @@ import (
 	"go/token"
 	"go/types"
 	"regexp"
+	"sort"
 	"strconv"
 	"strings"
 	"unicode"
@@ -270,12 +271,7 @@ func ruleHeaderSpelling(p *Prog, r *Report) {
 	hf := p.MustFunc(r, "ast", "(*DataMessage).Header")
 	lf := p.MustFunc(r, "sml", "lexMessageHeader")
 	if hf != nil && lf != nil {
-		var pats []string
-		for _, c := range callSites(lf, "regexp.MustCompile") {
-			if cs, ok := c.Common().Args[0].(*ssa.Const); ok && constVal(cs).K == KStr {
-				pats = append(pats, constVal(cs).S)
-			}
-		}
+		pats := regexPatterns(p, lf)
 		key := rule + ":ast.(*DataMessage).Header~sml.lexMessageHeader"
 		if len(pats) != 3 {
 			r.unk(rule, key, p.Pos(lf.Pos()), fmt.Sprintf("expected the three header patterns (stream/function, wait bit, direction) in lexMessageHeader, found %d", len(pats)))
@@ -771,4 +767,101 @@ func printsSML(p *Prog, fn *ssa.Function, f itemFormat) (detail string, decided,
 		return strings.Join(bad, "; "), true, false
 	}
 	return fmt.Sprintf("evaluated on 0, 1 and 3 concrete elements the printer yields exactly <%s[n] e1 … en> with the elements in SML notation (%s)", f.SML, strings.Join(texts, " ")), true, true
+}
+
+// regexPatterns lists, in source order, the regular expressions a function
+// matches its input with: constant patterns compiled in the function itself,
+// constant patterns it hands to a helper of its package that compiles its
+// parameter, and patterns hoisted into package-level variables (compiled in
+// the package initialiser) that the function reads.
+func regexPatterns(p *Prog, fn *ssa.Function) []string {
+	type found struct {
+		pos token.Pos
+		pat string
+	}
+	var out []found
+	isCompile := func(sc *ssa.Function) bool {
+		return sc != nil && sc.Pkg != nil && sc.Pkg.Pkg.Path() == "regexp" &&
+			(sc.Name() == "MustCompile" || sc.Name() == "Compile" || sc.Name() == "MatchString")
+	}
+	constStr := func(v ssa.Value) (string, bool) {
+		if cs, ok := v.(*ssa.Const); ok && constVal(cs).K == KStr {
+			return constVal(cs).S, true
+		}
+		return "", false
+	}
+	// which parameters of a helper reach a regexp compile call unchanged
+	compiledParams := func(g *ssa.Function) map[int]bool {
+		res := map[int]bool{}
+		for _, b := range g.Blocks {
+			for _, instr := range b.Instrs {
+				c, ok := instr.(*ssa.Call)
+				if !ok || !isCompile(c.Common().StaticCallee()) {
+					continue
+				}
+				for _, a := range c.Common().Args {
+					for i, prm := range g.Params {
+						if a == ssa.Value(prm) {
+							res[i] = true
+						}
+					}
+				}
+			}
+		}
+		return res
+	}
+	for _, b := range fn.Blocks {
+		for _, instr := range b.Instrs {
+			switch x := instr.(type) {
+			case *ssa.Call:
+				sc := x.Common().StaticCallee()
+				if sc == nil {
+					continue
+				}
+				if isCompile(sc) {
+					if s, ok := constStr(x.Common().Args[0]); ok {
+						out = append(out, found{x.Pos(), s})
+					}
+					continue
+				}
+				if sc.Pkg == fn.Pkg && sc.Blocks != nil {
+					for i := range compiledParams(sc) {
+						if i < len(x.Common().Args) {
+							if s, ok := constStr(x.Common().Args[i]); ok {
+								out = append(out, found{x.Pos(), s})
+							}
+						}
+					}
+				}
+			case *ssa.UnOp:
+				g, ok := x.X.(*ssa.Global)
+				if !ok || x.Op != token.MUL || !strings.HasSuffix(x.Type().String(), "regexp.Regexp") {
+					continue
+				}
+				initFn := fn.Pkg.Func("init")
+				if initFn == nil {
+					continue
+				}
+				for _, ib := range initFn.Blocks {
+					for _, ii := range ib.Instrs {
+						st, ok := ii.(*ssa.Store)
+						if !ok || st.Addr != ssa.Value(g) {
+							continue
+						}
+						if mc, ok := st.Val.(*ssa.Call); ok && isCompile(mc.Common().StaticCallee()) {
+							if s, ok := constStr(mc.Common().Args[0]); ok {
+								out = append(out, found{x.Pos(), s})
+							}
+						}
+					}
+				}
+			}
+		}
+	}
+	sort.SliceStable(out, func(i, j int) bool { return out[i].pos < out[j].pos })
+	var pats []string
+	for _, f := range out {
+		pats = append(pats, f.pat)
+	}
+	return pats
 }
